@@ -29,11 +29,19 @@ fn main() {
             b.space_by_ref::<2>(4, maxlen.min(5));
             b.space_by_ref::<3>(4, maxlen.min(5));
         }
+        if b.cx.shard.0 == 0 && b.cx.only_hist.is_none() {
+            b.zst::<0>();
+            b.zst::<1>();
+            b.zst::<3>();
+        }
         b.cx.rep.exhaustive = b.cx.only_hist.is_none();
         if random > 0 {
             b.random::<Track, 8>(random / 3);
             b.random::<Track, 16>(random / 3);
             b.random::<Copyf, 5>(random / 3);
+            // capacities beyond the 32- and 64-slot marks
+            b.random::<Copyf, 40>(random / 40 + 2);
+            b.random::<Track, 70>(random / 80 + 2);
         }
     }
     cx.finish();
